@@ -115,6 +115,17 @@ func Drive(p *Property, o DriveOpts) int {
 			fmt.Printf("  family=%s idx=%d monitor=%s: %s\n", v.Family, v.Idx, v.Viol.Monitor, trunc(v.Viol.Detail, 400))
 		}
 	}
+	if viol > 0 {
+		byMon := map[string]int{}
+		for _, v := range agg.Violations {
+			k := v.Family + "/"
+			if v.Viol != nil {
+				k += v.Viol.Monitor
+			}
+			byMon[k]++
+		}
+		fmt.Printf("violations by family/monitor: %v\n", byMon)
+	}
 	var kfIDs []string
 	for id := range agg.KF {
 		kfIDs = append(kfIDs, id)
